@@ -32,6 +32,7 @@ var repoRoot = func() string {
 	}
 	return "/repo"
 }()
+
 const repoModule = "go.pennock.tech/tabular"
 const vrtPath = repoModule + "/zverif/vrt"
 
